@@ -69,13 +69,26 @@ def stepOp (vt : Variant) (il : ILN) (op : Json) : Except String (ILN × Json) :
   | "setfield" => stepCopy il (setField il (← getStr op "name") (← intList (← op.getObjVal? "vals")))
   | _ => throw s!"unknown op {kind}"
 
-def run (args : Json) : Except String Json := do
-  let vt := if (getStr args "variant").toOption == some "repaired" then Variant.repaired else Variant.asIs
-  let init ← args.getObjVal? "init"
+def initIL (init : Json) : Except String ILN := do
   let fields ← (← getArr init "fields").mapM (fun f => do
     pure ((← getStr f "name"), (← intList (← f.getObjVal? "vals"))))
-  let il : ILN := { len := ← getNat init "len", ids := ← optOf init "ids" natList, nums := ← optOf init "nums" intList,
-                    vocab := ← optOf init "vocab" natList, fields := fields, ordered := (getBool init "ordered").toOption.getD false }
+  pure { len := ← getNat init "len", ids := ← optOf init "ids" natList, nums := ← optOf init "nums" intList,
+         vocab := ← optOf init "vocab" natList, fields := fields, ordered := (getBool init "ordered").toOption.getD false }
+
+/-- `c15.getstate`: the pickled state of an item list (identifiers, numbers, flag, length, field names) or the error class -/
+def getstateOp (args : Json) : Except String Json := do
+  let vt := if (getStr args "variant").toOption == some "repaired" then Variant.repaired else Variant.asIs
+  let il ← initIL (← args.getObjVal? "init")
+  match getstate vt il with
+  | .error e => pure (Json.mkObj [("err", Json.str (errTag e))])
+  | .ok s => pure (Json.mkObj [("ordered", Json.bool s.ordered), ("len", natJ s.len),
+      ("ids", match s.ids with | some i => Json.arr (i.map natJ).toArray | none => Json.null),
+      ("numbers", match s.numbers with | some n => Json.arr (n.map intJ).toArray | none => Json.null),
+      ("fields", Json.arr (s.fields.map (fun nf => Json.str nf.1)).toArray)])
+
+def run (args : Json) : Except String Json := do
+  let vt := if (getStr args "variant").toOption == some "repaired" then Variant.repaired else Variant.asIs
+  let il ← initIL (← args.getObjVal? "init")
   let ops ← getArr args "ops"
   let (_, outs) ← ops.foldlM (fun (st : ILN × List Json) op => do
     let (il', o) ← stepOp vt st.1 op
